@@ -120,6 +120,24 @@ static void out_kp(const secp256k1_keypair *kp) {
     unsigned char c[96]; memcpy(c, kp->data, 32); pk_to_canon(c + 32, (const secp256k1_pubkey *)&kp->data[32]); out_bytes(c, 96);
 }
 
+/* points on the wire: 64 bytes x||y, all-zero = infinity (same as pubkey objects) */
+static void ge_from_wire(secp256k1_ge *g, const unsigned char *c64) {
+    secp256k1_fe x, y;
+    if (all_zero(c64, 64)) { secp256k1_ge_set_infinity(g); return; }
+    secp256k1_fe_set_b32_mod(&x, c64); secp256k1_fe_set_b32_mod(&y, c64 + 32); secp256k1_ge_set_xy(g, &x, &y);
+}
+static void gej_from_wire(secp256k1_gej *j, const unsigned char *c64, const unsigned char *z32) {
+    secp256k1_ge g; secp256k1_fe z; ge_from_wire(&g, c64); secp256k1_gej_set_ge(j, &g);
+    if (z32 && !all_zero(z32, 32) && !g.infinity) { secp256k1_fe_set_b32_mod(&z, z32); if (!secp256k1_fe_normalizes_to_zero_var(&z)) secp256k1_gej_rescale(j, &z); }
+}
+static void out_ge(const secp256k1_ge *g) {
+    unsigned char c[64]; secp256k1_ge t = *g;
+    if (t.infinity) { memset(c, 0, 64); } else { secp256k1_fe_normalize(&t.x); secp256k1_fe_normalize(&t.y); secp256k1_fe_get_b32(c, &t.x); secp256k1_fe_get_b32(c + 32, &t.y); }
+    out_bytes(c, 64);
+}
+static void out_gej(secp256k1_gej *j) { secp256k1_ge g; secp256k1_gej t = *j; secp256k1_ge_set_gej_var(&g, &t); out_ge(&g); }
+
+
 typedef void (*op_fn)(void);
 typedef struct { const char *name; op_fn fn; } op_entry;
 
